@@ -5,6 +5,7 @@ set -e
 f=$(readlink -f "$1"); set -- "$f"
 cd /verif/harness && cargo build --offline >/dev/null 2>&1
 if grep -q '^# crash-experiment' "$1"; then exec python3 /verif/tools/crash.py --replay "$1"; fi
+if grep -q '^# hung-scenario http' "$1"; then exec /verif/harness/target/debug/drive --http --hung; fi
 if grep -q '^# hung-scenario' "$1"; then exec /verif/harness/target/debug/drive --hung; fi
 grep -v '^#' "$1" > /verif/work/replay.$$.ops
 rc=0
